@@ -72,6 +72,15 @@ def classify_method_extraction(src, start, end, new_src, new_name="extracted_q")
         return "unparsable", ""
     pos = srcpos.Pos(src)
     host, region = _host_and_region(tree, pos, start, end)
+    if host is not None and not region:
+        # expression region: the smallest expression node that covers it
+        best = None
+        for node in ast.walk(host):
+            if isinstance(node, ast.expr) and hasattr(node, "lineno"):
+                s_, e_ = pos.span(node)
+                if s_ <= start and end <= e_ and (best is None or (e_ - s_) <= (pos.span(best)[1] - pos.span(best)[0])):
+                    best = node
+        region = [best] if best is not None else []
     if host is None or not region:
         return "unexplained", "no-host"
     newdef = next((n for n in ast.walk(new_tree) if isinstance(n, FUNC) and n.name == new_name), None)
@@ -106,6 +115,16 @@ def classify_method_extraction(src, start, end, new_src, new_name="extracted_q")
     after_nodes = []
     for st in _stmts_after(host, region, pos, r_end):
         after_nodes.append(st)
+    # ---- a closure of the host reads a variable the region writes
+    closure_reads = set()
+    for n in ast.walk(host):
+        if n is not host and isinstance(n, FUNC + (ast.Lambda,)):
+            for ch in ast.walk(n):
+                if isinstance(ch, ast.Name) and isinstance(ch.ctx, ast.Load):
+                    closure_reads.add(ch.id)
+    for v in dict.fromkeys(written):
+        if v not in returned and v in closure_reads:
+            return "missing-return", "closure-reads"
     # ---- missing return
     for v in dict.fromkeys(written):
         if v in returned:
@@ -120,7 +139,9 @@ def classify_method_extraction(src, start, end, new_src, new_name="extracted_q")
         ak = first if first else "loop-carried"
         if first and first.endswith("store-only"):
             continue
-        return "missing-return", f"w={wk},after={ak}"
+        comp = any(isinstance(n, ast.comprehension) and any(isinstance(t, ast.Name) and t.id == v for t in ast.walk(n.target))
+                   for st in after_nodes for n in ast.walk(st))
+        return "missing-return", f"w={wk},after={ak}" + (",comprehension-rebinds-after" if comp else "")
     # ---- missing parameter
     for v in dict.fromkeys(read):
         if v in params or v not in bound_before:
